@@ -330,6 +330,51 @@ let handle (fields : string list) : string * string =
         | Some s -> hex_of_bytes (Model.emit s) ^ " " ^ settings_string s ^ " WF:ok"
         | None -> "err") in
     (mo, if mo = impl then "ok" else "fail:template-handling")
+  | "ntlm" :: db :: ops :: impl :: [] ->
+    let dbl = if db = "-" then [] else List.map (fun e -> match split_on '=' e with
+        | [u; p] -> (bytes_of_hex u, bytes_of_hex p) | _ -> failwith "bad db") (split_on ';' db) in
+    let dbf u = (try List.assoc u dbl with Not_found -> []) in
+    (* time advances by the waits; the challenge answered is the nonce of the negotiate step *)
+    let t = ref 0 in
+    let negcount = ref 0 in
+    let nonce_of_step = Hashtbl.create 16 in
+    let idx = ref 0 in
+    let parsed = List.map (fun o ->
+        incr idx;
+        match split_on '|' o with
+        | [w; s; m] ->
+          t := !t + int_of_string w;
+          let sess = bytes_of_hex s in
+          let msg = (match split_on ':' m with
+              | ["neg"] -> if sess <> [] then begin incr negcount; Hashtbl.replace nonce_of_step !idx !negcount end; NNegotiate
+              | ["negbad"] -> NNegotiateBad
+              | ["auth"; u; p; from] ->
+                let ch = (try Hashtbl.find nonce_of_step (int_of_string from) with Not_found -> 0) in
+                NAuth (bytes_of_hex u, RespFor (bytes_of_hex u, bytes_of_hex p, n_of_int ch))
+              | ["authas"; u; ku; kp; from] ->
+                let ch = (try Hashtbl.find nonce_of_step (int_of_string from) with Not_found -> 0) in
+                NAuth (bytes_of_hex u, RespFor (bytes_of_hex ku, bytes_of_hex kp, n_of_int ch))
+              | ["authbad"; u] -> NAuth (bytes_of_hex u, RespBad)
+              | ["b64bad"] -> NBadBase64
+              | ["garbage"] -> NGarbage
+              | ["empty"] -> NEmpty
+              | _ -> failwith ("bad ntlm msg " ^ m)) in
+          ((z_of_int !t, sess), msg)
+        | _ -> failwith "bad ntlm op") (split_on ',' ops) in
+    let outs = Model.nrun dbf Model.nstate0 parsed in
+    let m = String.concat "," (List.map (function
+        | OErr -> "err" | OChallenge _ -> "chal" | OAuthOK u -> "ok:" ^ hex_of_bytes u | ONotAuth -> "no") outs) in
+    (m, if m = impl then "ok"
+        else begin
+          let a = split_on ',' m and b = split_on ',' impl in
+          if List.length a = List.length b &&
+             List.exists2 (fun x y -> String.length y >= 2 && String.sub y 0 2 = "ok" && x <> y) a b
+          then "fail:authenticated-without-proof-of-the-configured-password"
+          else if List.length a = List.length b &&
+                  List.exists2 (fun x y -> String.length x >= 2 && String.sub x 0 2 = "ok" && x <> y) a b
+          then "fail:honest-client-not-authenticated"
+          else "fail:ntlm-response-differs"
+        end)
   | k :: _ -> failwith ("unknown kind " ^ k)
   | [] -> failwith "empty line"
 
